@@ -257,8 +257,13 @@ func genC03Op(t *simrt.Tape, selected bool) c03op {
 				o.LOpts.ReturnStatus = genStatusOptions(t)
 			}
 		}
-		for i, n := 0, t.Choose(5); i < n; i++ {
+		many := t.Choose(12) == 0 // a long listing of plain mailboxes: > 1000 empty attribute lists on one connection
+		for i, n := 0, t.Choose(5); i < n || (many && i < 1100); i++ {
 			d := &imap.ListData{Mailbox: mb[t.Choose(len(mb))] + fmt.Sprint(i), Delim: []rune{'/', '.', 0}[t.Choose(3)]}
+			if many {
+				o.List = append(o.List, d)
+				continue
+			}
 			for j, k := 0, t.Choose(3); j < k; j++ {
 				d.Attrs = append(d.Attrs, []imap.MailboxAttr{imap.MailboxAttrNoSelect, imap.MailboxAttrHasChildren, imap.MailboxAttrSubscribed, imap.MailboxAttrTrash, imap.MailboxAttrNoInferiors, "\\X-Custom"}[t.Choose(6)])
 			}
@@ -710,6 +715,9 @@ func runC03(r *R) {
 				volume += len(sec)
 			}
 		}
+	}
+	for _, o := range ops {
+		volume += 25 * len(o.List) // (a long listing is volume too)
 	}
 	if volume > 24000 && (netMode == 1 || netMode == 3) {
 		netMode = 2
